@@ -258,7 +258,11 @@ def recursion_rule(prog, roots_desc, slot_keys, rule, exceptions, scope=None, gu
 
 def r15_2(prog, rule, tab):
     for name in [x["function"] for x in tab["entry_points"]]:
-        f = prog.require(name)
+        f = prog.func(name)
+        if f is None:
+            if prog.info.get("config", "default") == "default":
+                raise AnalysisBroken("decode entry point %s no longer exists" % name)
+            continue
         # the decoder dispatch: an op-slot call or a direct call of a function taking the context first
         ctxp = f.params[0]["id"] if f.params and "asn_codec_ctx" in f.params[0]["type"] else None
         if ctxp is None:
@@ -354,7 +358,7 @@ def run_config(prog, tab, cfg):
     exc = {(x["rule"], x["function"], x["key"]): x["reason"] for x in tab["exceptions"]}
     slot_keys = common.slot_functions(prog, common.DECODER_SLOTS)
     cg = prog.callgraph()
-    scope = cg.reachable(slot_keys | {prog.require(x["function"]).key for x in tab["entry_points"]})
+    scope = cg.reachable(slot_keys | {prog.func(x["function"]).key for x in tab["entry_points"] if prog.func(x["function"])})
     comps, cyc = recursion_rule(prog, "functions reachable from decoder slots and decode entry points", None, r1, exc, scope)
     r15_2(prog, r2, tab)
     chk = derived_checkers(prog)
@@ -368,7 +372,7 @@ def run_config(prog, tab, cfg):
                 else:
                     r3.ok(f, BASE_CHECKER, "result used (%s)" % e.get("use"), e["line"])
     r5 = Rule("R15.5", "the decode entry points (which install a fresh stack-limit context) are never re-entered from inside a decoder", floor=4)
-    eps = {prog.require(x["function"]).key: x["function"] for x in tab["entry_points"]}
+    eps = {prog.func(x["function"]).key: x["function"] for x in tab["entry_points"] if prog.func(x["function"])}
     dscope = cg.reachable(slot_keys)
     for epk, epn in sorted(eps.items()):
         callers = [k for k in sorted(dscope) if epk in cg.edges.get(k, ())]
